@@ -15,8 +15,10 @@ import RichModel.Props.C13
 /-!
 # C02 — word wrapping keeps every character, in order, with its own style
 
-Property theorems only (helper lemmas: `Lemmas/Wrap*.lean`).  Model: `Model/Wrap.lean` (`_wrap.py`, `Text.wrap`,
-`Lines.justify`) on top of `Model/Text.lean` (C05) and `Model/Cells.lean` (C13).  All statements quantify over an arbitrary cell-width function `cw` with only the hypotheses they use
+Property theorems only, 29 of them (helper lemmas: `Lemmas/Wrap*.lean`; `divideLine_weak`, the offsets at any width,
+comes from C14's `Lemmas/TotalityWrap.lean`).  Model: `Model/Wrap.lean` (`_wrap.py`, `Text.wrap`,
+`Lines.justify`) on top of `Model/Text.lean` (C05) and `Model/Cells.lean` (C13); `Model/Style.lean` (C06) is used
+read-only by the three theorems about rich's real `Style` algebra.  All statements quantify over an arbitrary cell-width function `cw` with only the hypotheses they use
 (`cw ' ' = 1`, `cw '…' = 1`, `∀ c, cw c ≤ 2`, and `∀ c, cw c ≤ w` "every character fits a line" or just `1 ≤ w` — see
 "the boundary of the property" near the end: the stated range, widths ≥ 2 with characters of at most 2 cells, is one
 instance, `statement_range`) — instantiated at the table generated from `rich/_cell_widths.py` at the end — and over an
@@ -47,7 +49,11 @@ modes are exact.
 
 Tab expansion (`Text.expand_tabs`) re-applies the base style to every character; the headline theorem
 `wrap_fold_keeps_nonspace` therefore compares styles in the normal form `normView` (null style erased, adjacent
-repetitions merged); the sharper comparisons hold under the stated extra hypotheses.
+repetitions merged); the sharper comparisons hold under the stated extra hypotheses.  The normal form is not an
+assumption about styles: `normal_form_sound` proves it sound in every algebra whose `+` is associative, has an identity
+and is idempotent, `real_styles_idempotent` proves that rich's real `Style` algebra (C06 model, empty link stored as
+`None`: fix c566893) is one, and `wrap_fold_keeps_real_styles` restates the headline theorem there: the fields
+`Style.__eq__` compares, of the `Style` every non-whitespace character is rendered with, are the same before and after.
 
 `wrapLine_style_preserved` (every overflow mode) covers the four justify modes that treat lines separately and
 `wrapLine_style_preserved_full` justify "full"; both speak about the paragraph after tab expansion (which
@@ -214,7 +220,8 @@ theorem wrapLine_fold_keeps_every_justify [BEq σ] [LawfulBEq σ] (cw : Char →
 
 /-- **Word wrapping keeps every character, in order, with its own style** — the whole of `Text.wrap` (split on
 newlines, tab expansion with any tab size ≥ 1, division at the computed offsets, `rstrip_end`, justification, final
-crop), **every justify mode**, effective overflow "fold", wrapping enabled, any width ≥ 2, any text, any span set:
+crop), **every justify mode**, effective overflow "fold", wrapping enabled, any width into which every character fits
+(every width ≥ 2: `statement_range`; width 1 with single-cell characters: `width_one_single_cells`), any text, any span set:
 the call succeeds, and the non-whitespace characters of all produced lines, concatenated, are exactly those of the
 text — none dropped, duplicated or reordered — each with the effective style it had before wrapping.  Styles are
 compared in the normal form `normView` (null style erased, adjacent repetitions merged), i.e. up to the two laws of
